@@ -1,6 +1,7 @@
 package vrt
 
 import (
+	"io"
 	"encoding/json"
 	"errors"
 	"io/fs"
@@ -730,18 +731,193 @@ func FSOpen(name string) (*os.File, error) {
 	return os.Open(name)
 }
 
-func FSOpenFile(name string, flag int, perm os.FileMode) (*os.File, error) {
-	if f := FS; f != nil {
-		if flag&(os.O_WRONLY|os.O_RDWR|os.O_CREATE|os.O_TRUNC|os.O_APPEND) != 0 {
-			f.mu.Lock()
-			defer f.mu.Unlock()
-			return nil, f.escape("openfile(*os.File)", abs(name))
+// File is what the rewritten os.OpenFile returns: an in-memory file inside Root (every Write is a numbered,
+// faultable mutating operation that lands at once, as on a disk without a cache), the real file outside it
+// (read-only opens only). It has the methods of *os.File that writers of generated code use; code that needs a
+// genuine *os.File does not compile against it, which stops the build (exit 2) rather than bypass the disk.
+type File struct {
+	fs     *SimFS
+	path   string // resolved, inside Root
+	name   string
+	off    int64
+	flag   int
+	closed bool
+	real   *os.File
+}
+
+func FSOpenFile(name string, flag int, perm os.FileMode) (*File, error) {
+	f := FS
+	if f == nil {
+		rf, err := os.OpenFile(name, flag, perm)
+		if err != nil {
+			return nil, err
 		}
-		if f.inside(abs(name)) {
-			return nil, errors.New("simfs: os.OpenFile inside the simulated root is not supported")
+		return &File{real: rf, name: name}, nil
+	}
+	Yield("simfs.openfile")
+	if flag&os.O_CREATE != 0 && flag&os.O_EXCL != 0 { // O_EXCL does not follow a link in the last component
+		lp := f.locate(name, false)
+		f.mu.Lock()
+		_, isLink := f.links[lp]
+		f.mu.Unlock()
+		if isLink {
+			return nil, &fs.PathError{Op: "open", Path: name, Err: fs.ErrExist}
 		}
 	}
-	return os.OpenFile(name, flag, perm)
+	p := f.locate(name, true)
+	writing := flag&(os.O_WRONLY|os.O_RDWR|os.O_CREATE|os.O_TRUNC|os.O_APPEND) != 0
+	if !f.inside(p) {
+		if writing {
+			f.mu.Lock()
+			defer f.mu.Unlock()
+			return nil, f.escape("openfile", p)
+		}
+		rf, err := os.OpenFile(p, flag, perm)
+		if err != nil {
+			return nil, err
+		}
+		return &File{real: rf, name: name}, nil
+	}
+	f.mu.Lock()
+	defer f.mu.Unlock()
+	if f.dirs[p] {
+		if flag&os.O_CREATE != 0 && flag&os.O_EXCL != 0 {
+			return nil, &fs.PathError{Op: "open", Path: name, Err: fs.ErrExist}
+		}
+		if writing {
+			return nil, &fs.PathError{Op: "open", Path: name, Err: syscall.EISDIR}
+		}
+		return nil, errors.New("simfs: opening a directory of the simulated root as a file is not supported")
+	}
+	_, exists := f.files[p]
+	switch {
+	case exists && flag&os.O_CREATE != 0 && flag&os.O_EXCL != 0:
+		return nil, &fs.PathError{Op: "open", Path: name, Err: fs.ErrExist}
+	case !exists && flag&os.O_CREATE == 0:
+		return nil, f.missing("open", name, p)
+	case !exists:
+		if !f.dirs[filepath.Dir(p)] {
+			return nil, f.missing("open", name, p)
+		}
+		if ok, _, err := f.mutate("create", p, 0); !ok {
+			return nil, err
+		}
+		f.files[p] = []byte{}
+	case flag&os.O_TRUNC != 0 && len(f.files[p]) > 0:
+		if ok, _, err := f.mutate("truncate", p, 0); !ok {
+			return nil, err
+		}
+		f.files[p] = []byte{}
+	}
+	return &File{fs: f, path: p, name: name, flag: flag}, nil
+}
+
+func (x *File) Name() string { return x.name }
+
+func (x *File) Write(b []byte) (int, error) {
+	if x.real != nil {
+		return x.real.Write(b)
+	}
+	Yield("simfs.file.write")
+	f := x.fs
+	f.mu.Lock()
+	defer f.mu.Unlock()
+	if x.closed {
+		return 0, &fs.PathError{Op: "write", Path: x.name, Err: os.ErrClosed}
+	}
+	if x.flag&(os.O_WRONLY|os.O_RDWR) == 0 {
+		return 0, &fs.PathError{Op: "write", Path: x.name, Err: syscall.EBADF}
+	}
+	cur, ok := f.files[x.path]
+	if !ok {
+		cur = nil // unlinked meanwhile: the bytes go nowhere visible
+	}
+	if x.flag&os.O_APPEND != 0 {
+		x.off = int64(len(cur))
+	}
+	proceed, torn, err := f.mutate("write", x.path, len(b))
+	n := len(b)
+	if !proceed {
+		if torn < 0 {
+			return 0, err
+		}
+		n = torn
+	}
+	end := x.off + int64(n)
+	out := append([]byte{}, cur...)
+	for int64(len(out)) < end {
+		out = append(out, 0)
+	}
+	copy(out[x.off:end], b[:n])
+	if ok {
+		f.files[x.path] = out
+	}
+	x.off = end
+	if !proceed {
+		return n, err
+	}
+	return n, nil
+}
+
+func (x *File) WriteString(s string) (int, error) { return x.Write([]byte(s)) }
+
+func (x *File) Read(b []byte) (int, error) {
+	if x.real != nil {
+		return x.real.Read(b)
+	}
+	f := x.fs
+	f.mu.Lock()
+	defer f.mu.Unlock()
+	cur := f.files[x.path]
+	if x.off >= int64(len(cur)) {
+		return 0, io.EOF
+	}
+	n := copy(b, cur[x.off:])
+	x.off += int64(n)
+	return n, nil
+}
+
+func (x *File) Truncate(size int64) error {
+	if x.real != nil {
+		return x.real.Truncate(size)
+	}
+	f := x.fs
+	f.mu.Lock()
+	defer f.mu.Unlock()
+	if ok, _, err := f.mutate("truncate", x.path, 0); !ok {
+		return err
+	}
+	cur := append([]byte{}, f.files[x.path]...)
+	for int64(len(cur)) < size {
+		cur = append(cur, 0)
+	}
+	f.files[x.path] = cur[:size]
+	return nil
+}
+
+func (x *File) Sync() error {
+	if x.real != nil {
+		return x.real.Sync()
+	}
+	return nil
+}
+
+func (x *File) Close() error {
+	if x.real != nil {
+		return x.real.Close()
+	}
+	if x.closed {
+		return &fs.PathError{Op: "close", Path: x.name, Err: os.ErrClosed}
+	}
+	x.closed = true
+	return nil
+}
+
+func (x *File) Stat() (fs.FileInfo, error) {
+	if x.real != nil {
+		return x.real.Stat()
+	}
+	return fsStat(x.path, true)
 }
 
 func (f *SimFS) walk(p string, info simInfo, fn filepath.WalkFunc) error {
